@@ -39,10 +39,20 @@
    which the implementation was observed to do what the model does satisfies it (so the
    predicate cannot raise an alarm on code the model describes, and "no mismatch" implies "no
    violation"); [C06_every_observation_stronger]: it implies the statement on the complete
-   observations alone ([vt_holds], the predicate used before). *)
+   observations alone ([vt_holds], the predicate used before).
+
+   SGR in every spelling (model/VtSgrSpell.v, proofs/VtSgrSpellProofs.v): [xop] extends the
+   vocabulary by SGR sequences whose indexed and direct colours - foreground 38, background
+   48, underline colour 58 (and 59) - are written with semicolons, with colons, with colons
+   and the colourspace slot (empty = 0, or a number; ignored), by colon forms that spell
+   nothing (38:5, 38:2:r:g) and semicolon forms cut short by the end of the sequence (no
+   effect).  [C06_sgr_spellings]: the emulator's SGR on any such parameter list is the
+   reference pen, which does not depend on the spelling; [C06_term_refines_vt_spellings]: the
+   refinement theorem for histories over the extended vocabulary;
+   [C06_spellings_no_mismatch_no_violation]: the statement of the differential stream sgrx. *)
 From Vx Require Import base.Prelude base.ListX model.Colour model.Sgr model.Term model.TermCheck
-  model.VtSpec model.TermAbs model.VtCheck proofs.TermProofs proofs.TermRefine proofs.TermRefine5
-  proofs.TermRefine6.
+  model.VtSpec model.TermAbs model.VtCheck model.VtSgrSpell proofs.TermProofs proofs.TermRefine proofs.TermRefine5
+  proofs.TermRefine6 proofs.VtSgrSpellProofs.
 
 Theorem C06_term_refines_vt : forall (w h : Z) (ops : list vop),
   2 <= w <= 65535 -> 2 <= h <= 65535 ->
@@ -163,3 +173,41 @@ Example C06_example_pending :
   run_spec (vt_init 2 2) [Print [97] 1; Print [98] 1; LF] = None /\
   (exists v, run_spec (vt_init 2 2) [Print [97] 1; Print [98] 1; CR; LF] = Some v).
 Proof. split; [vm_compute; reflexivity | eexists; vm_compute; reflexivity]. Qed.
+
+(* ------------------------------------------------------------------ SGR in every spelling *)
+
+(* whatever the spelling of the extended colours (semicolons, colons, colourspace slot), for
+   foreground, background and underline colour, anywhere in a parameter list: the emulator's
+   pen is the reference terminal's, and that depends on the command only *)
+Theorem C06_sgr_spellings : forall xs st, xsgrs_ok xs = true ->
+  term_sgr (flat_map xenc xs) st = Ok (xspec_sgr st xs).
+Proof. exact xsgr_pen. Qed.
+Print Assumptions C06_sgr_spellings.
+
+Theorem C06_term_refines_vt_spellings : forall (w h : Z) (ops : list xop),
+  2 <= w <= 65535 -> 2 <= h <= 65535 ->
+  forall n v, xrun_spec (vt_init w h) (firstn n ops) = Some v ->
+  exists t0 t, term_start w h = TOk t0 /\ xrun_term t0 (firstn n ops) = TOk t /\ abs t = v.
+Proof. exact xterm_refines_vt. Qed.
+Print Assumptions C06_term_refines_vt_spellings.
+
+Theorem C06_spellings_no_mismatch_no_violation : forall c : xvt_case,
+  xvt_case_wf c = true -> hist_model_ok (xvt_history c) = true -> xvt_holds_every c = true.
+Proof. exact x_no_mismatch_no_violation. Qed.
+Print Assumptions C06_spellings_no_mismatch_no_violation.
+
+(* non-vacuity: the five spellings of the background RGB(10,20,30) are inside the vocabulary,
+   are five different parameter lists and give one pen; the forms that spell nothing leave a
+   coloured pen alone; a pen that took the slot for the red component is a different pen *)
+Example C06_example_spellings :
+  let sps := [SpSemi; SpColon; SpColonCs 0; SpColonCs 1] in
+  forallb (fun sp => xsgrs_ok [XC SBold; XRgb TBg sp 10 20 30; XIdx TUl true 9]) sps = true /\
+  map (fun sp => xenc (XRgb TBg sp 10 20 30)) sps =
+    [[[48]; [2]; [10]; [20]; [30]]; [[48; 2; 10; 20; 30]]; [[48; 2; 0; 10; 20; 30]]; [[48; 2; 1; 10; 20; 30]]] /\
+  map (fun sp => term_sgr (flat_map xenc [XC SBold; XRgb TBg sp 10 20 30; XIdx TUl true 9]) pen0) sps =
+    repeat (Ok (mkPen 0 (rgb_color 10 20 30) (index_color 9) 0 aBold)) 4 /\
+  rgb_color 10 20 30 <> rgb_color 0 10 20 /\
+  xsgrs_ok [XShort TFg [5]; XShort TBg [2; 1; 2]; XCut TUl [2; 7]] = true /\
+  term_sgr (flat_map xenc [XShort TFg [5]; XShort TBg [2; 1; 2]; XCut TUl [2; 7]]) (mkPen 1 2 3 0 0) = Ok (mkPen 1 2 3 0 0) /\
+  xsgrs_ok [XCut TFg [5]; XC SBold] = false.
+Proof. vm_compute. repeat split; try reflexivity. discriminate. Qed.
